@@ -25,7 +25,7 @@ func runC15(c *Ctx) {
 	L, P := c.L, c.P
 	L.Rule("R-C15-GUARD", "exported *Cache methods: nil guard before any dereference; closed guard before any channel op / go / call (frozen read-only exceptions); inert result on the guarded side", 14)
 	L.Rule("R-C15-CLOSESEQ", "Close = Clear → stop/done handshake → close(stop,done,setBuf) → policy.Close → ticker.Stop → isClosed.Store(true), in dominance order on every path", 3)
-	L.Rule("R-C15-CLEARSEQ", "Clear = handshake → drain → store.Clear/policy.Clear/metrics reset → restart applier once, last; every entry of every shard is released through onEvict", 11)
+	L.Rule("R-C15-CLEARSEQ", "Clear = handshake → drain → store.Clear/policy.Clear/metrics reset → restart applier once, last; every entry of every shard is released through onEvict; all metric cells and all doorkeeper words are zeroed", 13)
 	L.Rule("R-C15-GOROUTINES", "exactly three go statements; each body has a stop arm; Close stops both", 4)
 
 	nilOnly := map[string]string{
@@ -264,6 +264,8 @@ func runC15(c *Ctx) {
 	lockedMapClearRule(c, "R-C15-CLEARSEQ")
 	clearResetParts(c, "R-C15-CLEARSEQ", "cache", "metrics", "evict", "admit", "expiry")
 	sweepCursorRule(c, "R-C15-CLEARSEQ")
+	metricsClearRule(c, "R-C15-CLEARSEQ") // "its capacity and metrics are reset": every counter, not most of them
+	bloomClearRule(c, "R-C15-CLEARSEQ")   // the doorkeeper is emptied completely ("as a fresh one would")
 	oneConsumerRule(c, "R-C15-CLEARSEQ")
 
 	// ---- R-C15-GOROUTINES
